@@ -571,3 +571,107 @@ func feedReceiverNoShare(proto string, n, t, id, dealer int, vector []byte) (res
 	res.sk, res.gpk, res.pks, res.endErr = in.End()
 	return
 }
+
+// dkgInfinityThenJunk is a C08 leg: a vector of the right length whose point at position i is the
+// identity and whose later points are not valid G2 encodings (bad header, off the curve, on the curve
+// but outside G2, a copy of an earlier point with a flipped bit), together with the share of the
+// polynomial made of the coefficients BEFORE position i. A parser that stops looking after an
+// identity point would accept it; the vector is malformed, so End() must never return keys.
+func dkgInfinityThenJunk(run *mon.Run) {
+	cv := measuredConv()
+	grid := [][2]int{{4, 2}, {5, 3}, {7, 4}}
+	if !run.Quick() {
+		grid = append(grid, [2]int{3, 1}, [2]int{6, 5}, [2]int{9, 3})
+	}
+	junkKinds := []string{"bad-header", "off-curve", "non-G2", "x-ge-p", "bitflip-of-A0", "zeros", "random"}
+	var wg sync.WaitGroup
+	sem := make(chan struct{}, 16)
+	for gi, g := range grid {
+		n, t := g[0], g[1]
+		for pos := 0; pos < t; pos++ { // position of the identity point; at least one point follows
+			for ji, junk := range junkKinds {
+				if run.Quick() && (gi+pos+ji)%2 == 1 {
+					continue
+				}
+				wg.Add(1)
+				sem <- struct{}{}
+				go func(gi, pos, ji int, junk string) {
+					defer wg.Done()
+					defer func() { <-sem }()
+					defer run.Protect("c08 infinity then junk")
+					r := run.Rand(fmt.Sprintf("inf-junk-%d-%d-%d", gi, pos, ji))
+					p := craftedPoly{kind: "prefix", a: make([]*big.Int, t+1)}
+					for i := range p.a {
+						p.a[i] = new(big.Int)
+						if i < pos {
+							p.a[i] = randScalar(r)
+						}
+					}
+					if pos == 0 {
+						// the secret itself is zero: use position >= 1 for the accepted-keys case, but the
+						// vector must be refused here too
+					}
+					vec := p.vectorBytes() // A_0..A_{pos-1}, then identity points
+					a0 := skFromInt(randScalar(r)).PublicKey().Encode()
+					for i := pos + 1; i <= t; i++ {
+						pt := vec[1+96*i : 1+96*(i+1)]
+						switch junk {
+						case "bad-header":
+							copy(pt, a0)
+							pt[0] &= 0x1F
+						case "off-curve":
+							copy(pt, a0)
+							for tries := 0; tries < 64; tries++ {
+								pt[95] ^= byte(1 + tries)
+								if _, cls := ref.DecodeG2(pt, cv); cls == ref.DecOffCurve {
+									break
+								}
+							}
+						case "non-G2":
+							copy(pt, ref.EncodeG2(ref.NonSubgroupE2([]byte{byte(gi), byte(pos), byte(i)}), cv))
+						case "x-ge-p":
+							copy(pt, a0)
+							copy(pt[:48], ref.P.FillBytes(make([]byte, 48)))
+							pt[0] |= 0x80
+						case "bitflip-of-A0":
+							copy(pt, a0)
+							pt[50] ^= 0x10
+						case "zeros":
+							for k := range pt {
+								pt[k] = 0
+							}
+						default:
+							copy(pt, mon.RandBytes(r, 96))
+						}
+					}
+					if good, _ := refVector(vec, t, cv); good != nil {
+						return // the junk happened to be a valid point: not a malformed vector
+					}
+					dealer := r.IntN(n)
+					victim := (dealer + 1 + r.IntN(n-1)) % n
+					x := p.eval(int64(victim + 1))
+					share := append([]byte{sim.TagShare}, scalar32(x)...)
+					repm := map[string]any{"n": n, "t": t, "dealer": dealer, "victim": victim, "identity_position": pos, "junk": junk, "vector": mon.Hex(vec)}
+					for _, proto := range []string{"FeldmanVSS", "FeldmanVSSQual"} {
+						for _, shareFirst := range []bool{false, true} {
+							res := feedReceiver(proto, n, t, victim, dealer, vec, share, shareFirst)
+							run.Eval(1)
+							run.Count("infinity-then-junk.receivers", 1)
+							if res.problem != "" {
+								run.Violate("C08:infinity-then-junk:problem", fmt.Sprintf("%s receiver %d: %s", proto, victim, res.problem), repm)
+								return
+							}
+							if res.endErr == nil {
+								run.Violate("C08:infinity-then-junk:keys-after-invalid-vector:"+proto, fmt.Sprintf("%s receiver %d (n=%d,t=%d): vector with the identity at position %d followed by %s data and the share of the lower-degree polynomial: End() returned keys", proto, victim, n, t, pos, junk), repm)
+								return
+							}
+						}
+					}
+					run.Shape(fmt.Sprintf("infinity-then-junk|t%d|pos%d|%s", t, pos, junk))
+				}(gi, pos, ji, junk)
+			}
+		}
+	}
+	wg.Wait()
+	run.Require(run.Counter("infinity-then-junk.receivers") >= 40, "fewer than 40 receivers of infinity-then-junk vectors")
+}
